@@ -108,6 +108,17 @@ def gen(rnd, family):
             add("sink", [(m, 1)])
         else:
             add("sink", [(cur, 1)])
+    elif family == "bg_slow":
+        # a slow pass-through keeps a pass of the runner open for milliseconds while another
+        # graph runs in the process (always with "bg")
+        cap = rnd.choice([1, 2, 3])
+        sb = cap * 4096
+        n = rnd.choice([1, cap, cap + 1, 2 * cap + 1])
+        cur = add("src_big", data=list(range(1, n + 1)))
+        if rnd.random() < 0.5:
+            cur = add("addconst", [(cur, 1)], val=7)
+        cur = add("slow", [(cur, 1)], ms=rnd.choice([2, 3, 4]))
+        add("sink", [(cur, 1)])
     else:   # bits: nrzi / descrambler chain
         n = rnd.choice([0, 1, 17, 100, 5000])
         cur = add("src_u8", data=[rnd.randint(0, 1) for _ in range(n)])
@@ -117,6 +128,8 @@ def gen(rnd, family):
         add("sink", [(cur, 1)])
     order = list(range(1, len(nodes) + 1))
     rnd.shuffle(order)
+    if family == "bg_slow" and rnd.random() < 0.7:
+        order = [len(nodes)] + [1] + list(range(2, len(nodes)))       # sink first, then source, then the rest
     return {"nodes": nodes, "order": order, "stream_bytes": sb, "family": family}
 
 
@@ -127,6 +140,13 @@ def make(ctx, runners, per_family, seeds_per_graph=1, salt=0):
     rnd = random.Random(ctx.seed * 104729 + salt)
     out = []
     k = 0
+    # with another graph running in the process and a slow block (OS-thread runners only)
+    for _ in range(max(4, per_family // 4)):
+        g = gen(rnd, "bg_slow")
+        for runner in runners:
+            if runner in ("graph", "mt"):
+                k += 1
+                out.append(dict(g, runner=runner, seed=1, bg=True, id=f"{k}:bg_slow/{runner}+bg"))
     for fam in FAMILIES:
         for _ in range(per_family):
             g = gen(rnd, fam)
@@ -136,7 +156,11 @@ def make(ctx, runners, per_family, seeds_per_graph=1, salt=0):
                     reps = 1
                 for r in range(reps):
                     k += 1
-                    out.append(dict(g, runner=runner, seed=rnd.randrange(1 << 30), id=f"{k}:{fam}/{runner}"))
+                    d = dict(g, runner=runner, seed=rnd.randrange(1 << 30), id=f"{k}:{fam}/{runner}")
+                    if runner in ("graph", "mt") and k % 3 == 0:
+                        d["bg"] = True      # a second, never-ending graph runs in the process meanwhile
+                        d["id"] += "+bg"
+                    out.append(d)
     return out
 
 
